@@ -17,8 +17,17 @@ def err(e, stage):
     return {'err': type(e).__name__, 'msg': str(e)[:200], 'stage': stage}
 
 
+def _f(v):
+    v = float(v)
+    if v != v:
+        return 'nan'
+    if v in (float('inf'), float('-inf')):
+        return 'inf' if v > 0 else '-inf'
+    return v
+
+
 def fl(a):
-    return [float(v) for v in np.asarray(a, dtype='d').ravel()]
+    return [_f(v) for v in np.asarray(a, dtype='d').ravel()]
 
 
 def num(v):
@@ -32,7 +41,7 @@ def capture_fit(sset, xs, ys, ws):
 
     def spy(l, mininf=0.0):
         seen['alpha'] = np.array(l, dtype='d', copy=True)
-        seen['mininf'] = float(mininf)
+        seen['mininf'] = _f(mininf)
         return orig(l, mininf=mininf)
     B.cholesky_band = spy
     try:
@@ -46,9 +55,10 @@ def capture_fit(sset, xs, ys, ws):
 
 def do_fit(c):
     k = int(c['nord'])
-    xs = np.array(c['xs'], dtype='d')
-    ys = np.array(c['ys'], dtype='d')
-    ws = np.array(c['ws'], dtype='d')
+    dt = c.get('dtypes') or {}
+    xs = np.array(c['xs'], dtype='d').astype(dt.get('x', 'd'))
+    ys = np.array(c['ys'], dtype='d').astype(dt.get('y', 'd'))     # float32 / integer data (values exactly representable)
+    ws = np.array(c['ws'], dtype='d').astype(dt.get('w', 'd'))
     try:
         with warnings.catch_warnings():
             warnings.simplefilter('ignore')
@@ -150,8 +160,7 @@ def main():
             res.append(do_chol(c))
         else:
             res.append({'err': 'BadCall', 'stage': 'harness'})
-    out = json.dumps({'pydl_file': pydl.__file__, 'results': res})
-    sys.stdout.write(out.replace('NaN', '"nan"').replace('-Infinity', '"-inf"').replace('Infinity', '"inf"'))
+    sys.stdout.write(json.dumps({'pydl_file': pydl.__file__, 'results': res}, allow_nan=False))
 
 
 if __name__ == '__main__':
